@@ -7,7 +7,8 @@
     all concrete error values it stands for); every decision that leads to another attempt, and every
     first decision, is judged by TLC with DecisionOK (verdict) and compared with the table (drift only).
  3. Binding self-test.
- (The end-to-end half - frames counted at a mock cluster - lives with the mock-cluster checks.)
+ 2b. Scenarios (policy x idempotence x consistency x plan of scripted targets incl. pool errors) run through the
+    REAL execution loop (run_request_no_side_effects) with synthetic attempts; judged by TLC (ExecProp).
 """
 import concurrent.futures
 import json
@@ -74,6 +75,15 @@ def run(tier):
     v.sample(deep[0] if deep else rows[0])
     v.sample(rows[0])
 
+    # 2b. the real execution loop with scripted per-attempt failures (no speculative policy):
+    #     attempts actually made, their targets and consistencies, the decisions seen by a recording
+    #     wrapper around the real policy and the result are judged by TLC (ExecProp)
+    import execloop
+    scen = execloop.generate(thorough, want_spec=False)
+    st2, xrows = execloop.run_and_judge(v, wd, scen, "exec", "execution loop")
+    v.add(traces_validated_against_impl=len(scen), exec_loop_scenarios=len(scen), trace_validation_states=st + st2)
+    v.sample({"exec_loop_record": {k: xrows[len(xrows) // 2][k] for k in ("pol", "idem", "cl", "plan", "evs")}})
+
     if not v.violations:
         base = next(r_ for r_ in rows if r_["d"] == "stop" and not r_["idem"] and r_["e"]["k"] == "Overloaded")
         t1 = dict(base, d="next")
@@ -84,7 +94,7 @@ def run(tier):
             raise ToolError("binding self-test failed: retry of a non-idempotent request after Overloaded accepted")
         v.add(binding_selftest="a record retrying a non-idempotent request after Overloaded is rejected")
     v.add(drift=sorted(set(drift_all))[:10])
-    v.assumptions += ["loop semantics (same target / next target / stop / ignore, consistency carried over) are emulated by the harness in this half; the mock-cluster half observes the real loop",
+    v.assumptions += ["the history-tree walk emulates the loop; phase 2b drives the real loop (run_request_no_side_effects) with synthetic attempts on dummy connections",
                       "custom user retry policies are out of scope",
                       "Safe failures (prove non-application): Unavailable, IsBootstrapping, UnableToAllocStreamId, ReadTimeout"]
     return v.finish()
